@@ -524,6 +524,50 @@ pub fn run(tier: Tier) -> i32 {
         exhaustive: false,
         extra: vec![],
     });
+    // spectrum inputs through real pipes: view / fold / stat reading text and npy whose first write is short
+    {
+        let sp = crate::refmodel::RefArray::from_fn(&[3, 4], |f, _| f as f64 * 1.5 + 1.0);
+        let text = crate::subject::text_of(&sp).into_bytes();
+        let npy_out = run_sfs(&["view", "-O", "npy"], Stdin::Bytes(&text), &scratch);
+        let inputs: Vec<(&str, Vec<u8>)> = vec![("text", text.clone()), ("npy", npy_out.stdout.clone())];
+        let consumers: [&[&str]; 3] = [&["view", "--precision", "4"], &["fold", "--fill", "zero"], &["stat", "-s", "sum"]];
+        let mut sj: Vec<(usize, usize, usize)> = Vec::new();
+        for ii in 0..inputs.len() {
+            for ci in 0..3 {
+                for first in [1usize, 2, 3, 4, 5, 6, 7, 8, 10, 16, 64, 100, 130] {
+                    if first < inputs[ii].1.len() {
+                        sj.push((ii, ci, first));
+                    }
+                }
+            }
+        }
+        let res = par_map(sj.len(), |i| {
+            let (ii, ci, first) = sj[i];
+            let bytes = &inputs[ii].1;
+            let base = run_sfs(consumers[ci], Stdin::Bytes(bytes), &scratch);
+            let o = run_sfs_piped(consumers[ci], &[&bytes[..first], &bytes[first..]], 40, &scratch);
+            if base.ok() && o.code == base.code && o.stdout == base.stdout {
+                None
+            } else {
+                Some((
+                    format!("C18|cli|spectrum-pipe-chunking|{}|{}|{}", inputs[ii].0, consumers[ci][0], if first < 6 { "first-chunk-shorter-than-magic" } else { "later" }),
+                    format!("sfs {} reading a {} spectrum from a pipe whose first write is {first} bytes: {} stdout {:?} stderr {:?}; from a file: {} stdout {:?}", consumers[ci].join(" "), inputs[ii].0, o.status_str(), o.stdout_str(), o.stderr_str().trim(), base.status_str(), base.stdout_str()),
+                    J::obj([("kind", J::s("c18-spectrum-pipe")), ("argv", J::strs(consumers[ci])), ("first_chunk", J::u(first)), ("bytes_hex", J::s(hex(bytes)))]),
+                ))
+            }
+        });
+        for v in res.into_iter().flatten() {
+            rep.violation(v.0, v.1, v.2);
+        }
+        rep.part(Part {
+            name: "cli: spectra through real pipes with a delayed second write".into(),
+            evaluations: sj.len() as u64,
+            nontrivial: sj.len() as u64,
+            note: "view / fold / stat reading a text and an npy spectrum from a pipe whose first write is 1..8, 10, 16, 64, 100, 130 bytes (40 ms pause before the rest): same stdout and status as from a file (end-to-end confirmation, arrival timing is OS-dependent)".into(),
+            exhaustive: false,
+            extra: vec![],
+        });
+    }
     // failing sinks at L2: a full device as stdout and as the -o target
     {
         let full = std::path::Path::new("/dev/full");
@@ -615,6 +659,16 @@ pub fn replay(case: &J) -> Option<Vec<String>> {
             let scratch = Scratch::new("c18r");
             let o = if a.contains(&"-o") { run_sfs(&a, Stdin::Bytes(&inp), &scratch) } else { run_sfs_stdout_to(&a, &inp, std::path::Path::new("/dev/full"), &scratch) };
             Some(if o.diagnosed_error() { vec![] } else { vec![format!("C18|cli|write-failure-not-reported :: {a:?}: {} {:?}", o.status_str(), o.stderr_str())] })
+        }
+        "c18-spectrum-pipe" => {
+            let bytes = crate::json::unhex(case.get("bytes_hex")?.as_str()?)?;
+            let args: Vec<String> = case.get("argv")?.as_arr()?.iter().filter_map(|a| a.as_str().map(|s| s.to_string())).collect();
+            let a: Vec<&str> = args.iter().map(|s| s.as_str()).collect();
+            let first = (case.get("first_chunk")?.as_i64()? as usize).min(bytes.len());
+            let scratch = Scratch::new("c18r");
+            let base = run_sfs(&a, Stdin::Bytes(&bytes), &scratch);
+            let o = run_sfs_piped(&a, &[&bytes[..first], &bytes[first..]], 40, &scratch);
+            Some(if o.code == base.code && o.stdout == base.stdout { vec![] } else { vec![format!("C18|cli|spectrum-pipe-chunking :: {a:?} first write {first}: {} {:?} {:?}", o.status_str(), o.stdout_str(), o.stderr_str())] })
         }
         "c18-pipe" => {
             let bytes = crate::json::unhex(case.get("bytes_hex")?.as_str()?)?;
